@@ -266,6 +266,8 @@ def shrink_body(body):
 
 
 def shrink_env(env):
+    if env.get("tape"):
+        yield dict(env, tape=[])  # "lowest runnable core first" everywhere
     if env.get("stall"):
         yield dict(env, stall=False)
     if env.get("burst"):
